@@ -172,21 +172,27 @@ void run_case(ByteSource& s, CaseInfo& ci) {
     case 4: {  // compound assignment
       std::vector<double> a = gen_components(s, d, &pat, 500), b = gen_components(s, d, nullptr, 500);
       double x = s.num(400);
-      unsigned op = s.choose(6);
+      unsigned op = s.choose(8);
       // these checks are bit-exact (no tolerance), so the scalar may also be subnormal or next to the overflow threshold
       unsigned xs = s.choose(8);
       if (xs == 1) x = std::ldexp(1.0 + s.unif01(), -s.range(1023, 1074)) * (s.flag() ? -1 : 1);
       else if (xs == 2) x = std::ldexp(1.0 + s.unif01(), s.range(1000, 1023));
       if (xs == 1 || xs == 2) { double sc = std::ldexp(1.0, xs == 1 ? -s.range(1000, 1040) : s.range(0, 20)); for (auto& v : a) v *= sc; ci.label(xs == 1 ? "scalar-subnormal" : "scalar-huge"); }
       if (op == 3 && x == 0) x = 3.0;  // /= 0 is excluded (documented precondition: scalar division)
-      static const char* names[] = {"+=", "-=", "*=", "/=", "+=self", "-=self"};
+      static const char* names[] = {"+=", "-=", "*=", "/=", "+=self", "-=self", "*=own-component", "/=own-component"};
+      int own = -1;
+      if (op >= 6) {  // the scalar is one of the vector's own components (v *= v[k]): it is a value, not a reference into the storage being updated
+        own = (int)s.choose(d * d);
+        if (op == 7 && a[own] == 0) op = 6;
+        x = a[own];
+      }
       ci.label(std::string("compound") + names[op]); ci.nontrivial = two_kinds(a, d);
       ci.sample = fmt("a %s ... d=%d a=%s b=%s x=%.17g", names[op], d, vec_str(a).c_str(), vec_str(b).c_str(), x);
       SU_vector A = make_vec(a, d), B = make_vec(b, d);
       const double* addr = &A[0];
       std::vector<double> want(d * d);
-      for (int i = 0; i < d * d; i++) switch (op) { case 0: want[i] = a[i] + b[i]; break; case 1: want[i] = a[i] - b[i]; break; case 2: want[i] = a[i] * x; break; case 3: want[i] = a[i] / x; break; case 4: want[i] = a[i] + a[i]; break; default: want[i] = a[i] - a[i]; }
-      switch (op) { case 0: A += B; break; case 1: A -= B; break; case 2: A *= x; break; case 3: A /= x; break; case 4: A += A; break; default: A -= A; }
+      for (int i = 0; i < d * d; i++) switch (op) { case 0: want[i] = a[i] + b[i]; break; case 1: want[i] = a[i] - b[i]; break; case 2: want[i] = a[i] * x; break; case 3: want[i] = a[i] / x; break; case 4: want[i] = a[i] + a[i]; break; case 5: want[i] = a[i] - a[i]; break; case 6: want[i] = a[i] * x; break; default: want[i] = a[i] / x; }
+      switch (op) { case 0: A += B; break; case 1: A -= B; break; case 2: A *= x; break; case 3: A /= x; break; case 4: A += A; break; case 5: A -= A; break; case 6: A *= A[own]; break; default: A /= A[own]; }
       CHECK(&A[0] == addr && (int)A.Dim() == d, std::string("C01|compound|storage-changed|") + names[op], "d=%d", d);
       for (int i = 0; i < d * d; i++)
         CHECK(bit_equal(A[i], want[i]) || (std::isnan(A[i]) && std::isnan(want[i])), std::string("C01|compound|not-componentwise|") + names[op], "d=%d slot %d lib=%.17g ieee=%.17g", d, i, A[i], want[i]);
